@@ -197,7 +197,15 @@ class _FakeFcntl:
         return 0
 
 
+REAL_DEFAULT_TIMEOUT = term_image.DEFAULT_QUERY_TIMEOUT  # seconds
+DEFAULT_TICKS = 50  # the library's default query timeout expressed in virtual ticks (1 tick = 2 ms)
+
+
 def install():
+    # the virtual clock counts ticks, so the library's default timeout is restated in ticks as well; the cases
+    # configure timeouts on both sides of it through the public term_image.set_query_timeout()
+    term_image.DEFAULT_QUERY_TIMEOUT = DEFAULT_TICKS
+    utils._query_timeout = DEFAULT_TICKS
     utils.os = _FakeOS()
     utils.termios = _FakeTermios()
     utils.select = _fake_select
@@ -211,7 +219,12 @@ def fresh(T=100, enabled=True, swap=False):
     global VTERM
     VTERM = VT()
     VTERM.T = T
-    utils._query_timeout = T
+    utils._query_timeout = DEFAULT_TICKS  # as after import …
+    if T != DEFAULT_TICKS:
+        if T > 0:
+            term_image.set_query_timeout(T)  # … then configured the way a user does it
+        else:
+            utils._query_timeout = T
     utils._queries_enabled = enabled
     utils._swap_win_size = swap
     utils._cell_size_cache[:] = [0] * 4
@@ -577,7 +590,7 @@ class C12(Property):
         yield Case(f"bursts {f_bursts(bursts)}", {"op": "bursts", "bursts": [[g, x.hex()] for g, x in bursts]}, "bursts", bool(bursts))
 
     def gen_query(self, rng):
-        T = rng.choice([1, 5, 20, 100])
+        T = rng.choice([1, 5, 20, DEFAULT_TICKS, 100])
         more = rng.choice([("c",), ("csi",), ("lt", rng.randrange(0, 6))])
         w = self.rnd_stream(rng, maxlen=4, T=T) if rng.random() < 0.5 else []
         stream = bytes(rng.choice(b"ab\x1b[c;0") for _ in range(rng.randrange(0, 9)))
@@ -590,7 +603,7 @@ class C12(Property):
     # ---- the four callers: a terminal description + the expected arrivals
     def _term_case(self, rng, op, replies, units_order, T=None, mode=None, extra_line="", extra=None, sem=None,
                    wellformed=True):
-        T = T or rng.choice([10, 100, 100, 1000])
+        T = T or rng.choice([10, 20, DEFAULT_TICKS, 100, 100, 200, 1000])  # below, at and above the default
         mode = mode or rng.choice(["unit", "unit", "unit", "any", "late"])
         units = [bytes.fromhex(replies[q]) for q in units_order if replies.get(q)]
         stream = b"".join(units)
@@ -736,7 +749,7 @@ class C12(Property):
         yield Case(f"iterm {f_ob(name)} {f_ob(ver)}", {"op": "iterm", "name": name, "ver": ver}, "iterm", name is not None)
 
     def gen_auto(self, rng):
-        T = rng.choice([10, 100, 1000])
+        T = rng.choice([10, 20, DEFAULT_TICKS, 100, 1000])
         name, paren = rng.choice(NAMES + [("kitty", True)] * 4 + [("Konsole", False)] * 3 + [("iTerm2", False), ("WezTerm", False)] * 2)
         ver = rnd_version(rng, name)
         sup = {q: rng.random() < 0.85 for q in ("ver", "da1")}
@@ -1052,7 +1065,11 @@ class C12(Property):
         if op not in ("colors", "namever", "cellsize", "kitty", "auto"):
             return None
         f = oracle_auto_style(d, impl_result) if op == "auto" else None
-        return f or oracle_call(d, impl_result)
+        f = f or oracle_call(d, impl_result)
+        if f is not None:
+            f.what += (f" [timeout {d['T']} ticks configured through set_query_timeout(); library default {DEFAULT_TICKS} ticks; "
+                       f"every reply of a conformant terminal arrives before the configured timeout]")
+        return f
 
     # -- targeted failing-input search ---------------------------------------------------
     def search(self, rng, tier, reasons):
@@ -1128,7 +1145,8 @@ def split_tail(res: str):
     """'<ok|err> <value…> @ <dur> <n> <g b>…' → (status, value tokens, dur, leftover stream length)"""
     toks = res.split()
     at = toks.index("@")
-    return toks[0], toks[1:at], int(toks[at + 1]), int(toks[at + 2])
+    dur = float(toks[at + 1])  # an integer number of ticks unless the code under test computes odd timeouts
+    return toks[0], toks[1:at], int(dur) if dur.is_integer() else dur, int(toks[at + 2])
 
 
 def oracle_call(d, res: str):
@@ -1289,6 +1307,7 @@ def pty_tier(rng, ev):
     saved = (utils.os, utils.termios, utils.select, utils.fcntl, utils.monotonic, utils._tty_fd)
     utils.os, utils.termios, utils.select, utils.fcntl, utils.monotonic = _real_os, _termios, real_select, _fcntl, time.monotonic
     utils._tty_fd = slave
+    term_image.DEFAULT_QUERY_TIMEOUT = REAL_DEFAULT_TIMEOUT  # real seconds in this tier
     stop = threading.Event()
     cfg = {"term": None}
 
@@ -1337,7 +1356,7 @@ def pty_tier(rng, ev):
             elif it % 10 == 4:  # answers everything but the DA1 sentinel
                 replies["da1"] = None
             cfg["term"] = {"replies": replies, "delay": rng.choice([0, 0, T / 50, T / 10])}
-            utils._query_timeout = T
+            term_image.set_query_timeout(T)
             utils._queries_enabled = True
             utils._cell_size_cache[:] = [0] * 4
             utils.get_fg_bg_colors._invalidate_cache()
@@ -1383,6 +1402,7 @@ def pty_tier(rng, ev):
     finally:
         stop.set()
         utils.os, utils.termios, utils.select, utils.fcntl, utils.monotonic, utils._tty_fd = saved
+        term_image.DEFAULT_QUERY_TIMEOUT = DEFAULT_TICKS
         _real_os.close(master)
         _real_os.close(slave)
         fresh()
